@@ -136,6 +136,7 @@ where
             budgets: std::cell::Cell::new((100_000, 100_000)),
             last_steps: std::cell::Cell::new(0),
             caches: Vec::new(),
+            pending: RefCell::new(None),
         }
     };
     let exiter = if early_exit { Some(nt - 1) } else { None };
